@@ -54,6 +54,14 @@ def _clouds(tier, seed):
         d3 = np.round(rng.standard_normal((12, 3)) * 0.7 * 64) / 64
         d3[6:] += np.array([2.0, 2.0, 0.0])
         out.append(("twomode3d", d3.tolist()))
+    # three TIGHT anisotropic clusters (spread 2^-7, centres O(1) apart), coordinates on a 2^-20 lattice so that a
+    # translation by 2^10 is exact: narrow kernels far from the origin
+    for j in range(1 if tier == "quick" else 3):
+        rng = np.random.default_rng([seed, 1717, j])
+        cen = np.array([[0.0, 0.0, 0.0], [0.5, -0.25, 0.25], [-0.25, 0.5, 0.5]])
+        sc = np.array([[1.0, 0.5, 0.25], [0.25, 1.0, 0.5], [0.5, 0.25, 1.0]]) * 2.0 ** -7
+        pts = np.array([cen[i % 3] + rng.standard_normal(3) * sc[i % 3] for i in range(18)])
+        out.append(("tight3d", (np.round(pts * 2 ** 20) / 2 ** 20).tolist()))
     lat = [[float(i % 3), float(i // 3)] for i in range(9)] + [[0.0, 0.0], [2.0, 2.0], [1.0, 1.0]]
     out.append(("lattice-dups", lat))
     return out
@@ -202,13 +210,14 @@ def _mixture(Q, D, w, G, H, labels, cell):
     return np.array(out), branches
 
 
-def _fit(D, w, G, setting, cell, used=False, int_grid=False):
+def _fit(D, w, G, setting, cell, used=False, int_grid=False, raw=False):
+    """raw: D and G are the CALLER'S float64 arrays and are handed over as they are (no defensive copy)."""
     from skmatter.neighbors import SparseKDE
 
     kw = dict(setting)
     if cell is not None:
         kw["metric_params"] = {"cell_length": np.array(cell, float)}
-    m = SparseKDE(np.array(D, float), None if w is None else np.array(w, float), **kw)
+    m = SparseKDE(D if raw else np.array(D, float), None if w is None else np.array(w, float), **kw)
     if used:  # a USED estimator: fitted on another grid of the same size and queried before the fit that is judged
         Go = np.array(G, float)[::-1] * 1.0 + 0.0123  # another grid of the same size (slightly displaced, other order)
         try:
@@ -229,7 +238,7 @@ def _fit(D, w, G, setting, cell, used=False, int_grid=False):
     else:
         rec = None
     try:
-        m.fit(np.array(G, float) if not int_grid else np.array(G, float).astype(np.int64))
+        m.fit(G if raw else (np.array(G, float) if not int_grid else np.array(G, float).astype(np.int64)))
     except Exception as e:
         e._verif_rec = rec
         raise
@@ -410,7 +419,7 @@ def check(case):
         if tie_q.any():
             r.count("queries_at_half_cell_not_compared", int(tie_q.sum()))
 
-    def compare(tag, D2, w2, G2, Q2, kind):
+    def compare(tag, D2, w2, G2, Q2, kind, tol=1e-6, elementwise=False):
         try:
             m2, _ = fit(D2, w2, G2)
             g2 = np.asarray(m2.score_samples(np.array(Q2, float)), float)
@@ -419,7 +428,7 @@ def check(case):
             return False
         r.states += 1
         f2 = np.isfinite(g2) & fin & ~tie_q
-        if not np.array_equal(np.isfinite(g2)[~tie_q], fin[~tie_q]) or (f2.any() and np.abs(g2[f2] - got[f2]).max() > 1e-6 * max(1.0, np.abs(got[f2]).max())):
+        if not np.array_equal(np.isfinite(g2)[~tie_q], fin[~tie_q]) or (f2.any() and (np.abs(g2[f2] - got[f2]) > tol * (np.maximum(1.0, np.abs(got[f2])) if elementwise else max(1.0, np.abs(got[f2]).max()))).any()):
             r.fail(kind, "%s: %s vs %s" % (tag, np.round(g2, 7).tolist(), np.round(got, 7).tolist()))
             return False
         return True
@@ -429,6 +438,36 @@ def check(case):
         t = np.array([1.75, -2.5, 0.625][:dim]) if not case.get("int_grid") else np.array([2.0, -3.0, 1.0][:dim])
         if not compare("translation", D + t, wlist, G + t, Q + t, "not-translation-invariant"):
             return r
+        if not case.get("int_grid"):
+            # the caller REUSES its own arrays: fit, translate descriptors and grid IN PLACE (same array objects),
+            # fit a new estimator on them. What is scored must be what a fit on fresh copies gives.
+            Da_s, Ga_s = np.array(D, float), np.array(G, float)
+            try:
+                r.transitions += 2
+                m1, _ = _fit(Da_s, wlist, Ga_s, case["setting"], cell, raw=True)
+                g1 = np.asarray(m1.score_samples(Q.copy()), float)
+                Da_s += t
+                Ga_s += t
+                m2, _ = _fit(Da_s, wlist, Ga_s, case["setting"], cell, raw=True)
+                g2 = np.asarray(m2.score_samples(Q + t), float)
+            except Exception as e:
+                return r.fail("refit-on-reused-arrays-crash:%s" % type(e).__name__, repr(e))
+            r.states += 2
+            for tag_, g_ in (("fit on the caller's arrays", g1), ("refit after the caller translated its arrays in place", g2)):
+                f2 = np.isfinite(g_) & fin
+                if not np.array_equal(np.isfinite(g_), fin) or (f2.any() and np.abs(g_[f2] - got[f2]).max() > 1e-6 * max(1.0, np.abs(got[f2]).max())):
+                    return r.fail("depends-on-reused-caller-arrays", "%s: %s vs %s" % (tag_, np.round(g_, 7).tolist(), np.round(got, 7).tolist()))
+        if case["label"].startswith("tight") and not case.get("int_grid") and "fpoints" in case["setting"]:
+            # narrow kernels, FAR translation (exact: 2^10 on a 2^-20 lattice). Everything the estimator computes is a
+            # function of coordinate differences, which are unchanged bit for bit; a formula that works with the
+            # coordinates themselves loses ~ eps * |t|^2 / h^2 ~ 1e-16 * 1e6 * 1e4. Measured on the unchanged library:
+            # every element agrees to < 1e-11 (relative, element-wise) with the fpoints localisation; the fspread
+            # localisation is not judged here because its Gaussian weights go through sklearn's expanded Euclidean
+            # form, whose own rounding (eps * |t|^2 / sigma^2) already reaches 1e-5 at this distance
+            tf = 1024.0 * np.array([1.0, -1.0, 1.0][:dim])
+            r.count("far_translations_judged")
+            if not compare("translation by 2^10", D + tf, wlist, G + tf, Q + tf, "not-translation-invariant", tol=1e-10, elementwise=True):
+                return r
     for pi, perm in enumerate([list(range(n))[::-1], [(i * 5 + 2) % n for i in range(n)] if np.gcd(5, n) == 1 else list(range(1, n)) + [0]]):
         w2 = None if wlist is None else [wlist[p] for p in perm]
         if not compare("descriptor permutation %d" % pi, D[perm], w2, G, Q, "depends-on-descriptor-order"):
